@@ -1,5 +1,5 @@
 (* C04 -- compiled fonts are serialisable and their derived fields are consistent. *)
-From U2F Require Import Base.Prelude Metrics.Hmtx Metrics.HmtxProofs.
+From U2F Require Import Base.Prelude Metrics.Hmtx Metrics.HmtxProofs Metrics.Vorg Metrics.VorgProofs.
 Open Scope Z_scope.
 
 (* the metrics table, written with the pre-computed long-metric count, decodes
@@ -41,3 +41,24 @@ Print Assumptions C04_font_box_empty.
 Example C04_num_long_example : num_long [500; 600; 300; 300; 300] = 3%nat /\ num_long [7; 7; 7] = 1%nat.
 Proof. split; reflexivity. Qed.
 Print Assumptions C04_num_long_example.
+
+(* VORG: the default is a most frequent vertical origin (and one that occurs), reading the table back
+   gives every glyph its own origin, and no record repeats the default -- for every glyph list *)
+Theorem C04_vorg_default_most_frequent : forall l v, (zcount v l <= zcount (vorg_default l) l)%nat.
+Proof. exact vorg_default_most_frequent. Qed.
+Print Assumptions C04_vorg_default_most_frequent.
+
+Theorem C04_vorg_default_occurs : forall l, l <> [] -> In (vorg_default l) l.
+Proof. exact vorg_default_occurs. Qed.
+Print Assumptions C04_vorg_default_occurs.
+
+Theorem C04_vorg_roundtrip : forall gl n v,
+  NoDup (map fst gl) -> In (n, v) gl ->
+  vorg_lookup (vorg_records gl) (vorg_default (map snd gl)) n = v.
+Proof. exact vorg_roundtrip. Qed.
+Print Assumptions C04_vorg_roundtrip.
+
+Theorem C04_vorg_records_minimal : forall gl n v,
+  In (n, v) (vorg_records gl) -> v <> vorg_default (map snd gl) /\ In (n, v) gl.
+Proof. exact vorg_records_minimal. Qed.
+Print Assumptions C04_vorg_records_minimal.
